@@ -255,7 +255,7 @@ impl<'a> Gen<'a> {
                 return Some(
                     fields
                         .iter()
-                        .map(|(n, ft)| (n.clone(), if args.is_empty() { ft.clone() } else { ft.subst(&args[0]) }))
+                        .map(|(n, ft)| (n.clone(), ft.subst(args)))
                         .collect(),
                 );
             }
@@ -290,7 +290,7 @@ impl<'a> Gen<'a> {
                                     v.clone(),
                                     k,
                                     ts.iter()
-                                        .map(|ft| if args.is_empty() { ft.clone() } else { ft.subst(&args[0]) })
+                                        .map(|ft| ft.subst(args))
                                         .collect(),
                                 )
                             })
@@ -542,12 +542,13 @@ impl<'a> Gen<'a> {
             let t = if !self.env.decls.is_empty() && self.p.chance(3, 5) {
                 let i = self.p.below(self.env.decls.len() as u64) as usize;
                 if self.env.decls[i].generic() {
-                    T::Named(i, vec![gen_type(self.p, &self.env, 1, false, &o)])
+                    let n = self.env.decls[i].nparams();
+                    T::Named(i, (0..n).map(|_| gen_type(self.p, &self.env, 1, 0, &o)).collect())
                 } else {
                     T::Named(i, vec![])
                 }
             } else {
-                gen_type(self.p, &self.env, 2, false, &o)
+                gen_type(self.p, &self.env, 2, 0, &o)
             };
             if !matches!(t, T::Bool | T::Int(..) | T::Unit | T::F32 | T::F64 | T::Char | T::Asn) {
                 return t;
@@ -1121,7 +1122,7 @@ impl Src<'_> {
             T::Named(i, args) if matches!(self.env.decls[*i], Decl::Record { .. }) => {
                 let Decl::Record { fields, .. } = &self.env.decls[*i] else { unreachable!() };
                 for (n, ft) in fields {
-                    let ft = if args.is_empty() { ft.clone() } else { ft.subst(&args[0]) };
+                    let ft = ft.subst(args);
                     self.emit(&format!("{e}.{n}"), &ft, ind, out);
                 }
             }
@@ -1141,7 +1142,7 @@ impl Src<'_> {
                                 (
                                     v.clone(),
                                     k,
-                                    ts.iter().map(|ft| if args.is_empty() { ft.clone() } else { ft.subst(&args[0]) }).collect(),
+                                    ts.iter().map(|ft| ft.subst(args)).collect(),
                                 )
                             })
                             .collect()
